@@ -3,7 +3,8 @@
 (* the configuration record, the transaction catalogue (with the creators /    *)
 (* conflicting spends the harness looks up to decide whether a block can be    *)
 (* mined) and the request alphabet.  The harness explores the implementation   *)
-(* with exactly the requests the specification names.                          *)
+(* with exactly the requests the specification names - including the Bury sizes *)
+(* around every depth constant of the monitor (Plan.DX, Plan.around: BurySet).  *)
 EXTENDS Lifecycle, Json, IOUtils
 
 Plan == JsonDeserialize(IOEnv.LC_PLAN)
